@@ -3,8 +3,6 @@
 //! bytes through proptest's pass-through RNG) and runs the same oracles as the checks.
 use crate::engine::*;
 use crate::props;
-use proptest::strategy::{Strategy, ValueTree};
-use proptest::test_runner::{Config, RngAlgorithm, TestRng, TestRunner};
 
 /// (property id, signature, detail)
 pub type Finding = (String, String, String);
@@ -42,47 +40,120 @@ pub fn text_findings(data: &[u8]) -> Vec<Finding> {
     out
 }
 
-fn case_from_bytes<S: Strategy>(strat: &S, data: &[u8]) -> Option<S::Value> {
-    let rng = TestRng::from_seed(RngAlgorithm::PassThrough, data);
-    let mut runner = TestRunner::new_with_rng(Config { failure_persistence: None, ..Config::default() }, rng);
-    strat.new_tree(&mut runner).ok().map(|t| t.current())
+/// Byte reader for the hand-written decoders (bytes -> structured case).  proptest's pass-through
+/// RNG was tried first and dropped: some strategies fork the RNG, which halves the remaining data
+/// each time, and rand's rejection sampling never terminates on the zeros an exhausted
+/// pass-through RNG yields (observed as a 1200 s libFuzzer timeout on the first seed input).
+struct Rd<'a> {
+    d: &'a [u8],
+    p: usize,
+}
+impl<'a> Rd<'a> {
+    fn u8(&mut self) -> u8 {
+        let v = self.d.get(self.p).copied().unwrap_or(0);
+        self.p += 1;
+        v
+    }
+    fn u32(&mut self) -> u32 {
+        u32::from_le_bytes([self.u8(), self.u8(), self.u8(), self.u8()])
+    }
+    fn done(&self) -> bool {
+        self.p >= self.d.len()
+    }
 }
 
-/// first byte selects the property, the rest drives its generator
+fn decode_image(r: &mut Rd) -> Vec<u8> {
+    let n = (r.u8() as usize) % 0xF1;
+    (0..n).map(|_| r.u8()).collect()
+}
+
+fn decode_c13(r: &mut Rd) -> props::c13::Script {
+    use props::c13::Op;
+    let stack = r.u8() % 5;
+    let psize = match r.u8() {
+        0 => None,
+        n => Some(n),
+    };
+    let image = decode_image(r);
+    let mut ops = vec![];
+    while !r.done() && ops.len() < 200 {
+        let k = r.u8();
+        ops.push(match k % 17 {
+            0 | 1 | 2 => Op::Edges(k / 17 * 4 + 1),
+            3 => Op::AsmStep,
+            4 => Op::KeyInt,
+            5 => Op::Continue,
+            6 => Op::CpuReset,
+            7 => Op::MasterReset,
+            8 => Op::Input(k / 17 % 4, r.u8()),
+            9 => Op::DigitalIn(r.u8()),
+            10 => Op::Volt(k / 17 % 3, r.u32()),
+            11 => Op::Jumper(k / 17 % 2, k & 0x80 != 0),
+            12 => Op::Uio(k / 17 % 3, k & 0x80 != 0),
+            13 => Op::BusWrite(0xF0 | (k / 17), r.u8()),
+            14 => Op::BusWrite(r.u8(), r.u8()),
+            15 => Op::Board(k / 17 % 8, r.u8()),
+            _ => Op::BusRead(r.u8()),
+        });
+    }
+    props::c13::Script { image, stack, psize, ops }
+}
+
+fn raw_prog(image: &[u8]) -> Vec<crate::progen_sem::Tm> {
+    image.iter().map(|b| crate::progen_sem::Tm::Raw(*b)).collect()
+}
+
+fn decode_c05(r: &mut Rd) -> props::c05::SupCase {
+    use props::c05::{Fill, Stim};
+    let stack = r.u8() % 5;
+    let limit = r.u8();
+    let fill = if r.u8() & 1 == 0 { Fill::Zero } else { Fill::Nops };
+    let image = decode_image(r);
+    let mut stims = vec![];
+    while !r.done() && stims.len() < 12 {
+        let k = r.u8();
+        stims.push(match k % 6 {
+            0 => Stim::ClockReal(k / 6 + 1),
+            1 => Stim::ClockAsm(k / 6 % 4 + 1),
+            2 => Stim::KeyInt,
+            3 => Stim::Input(k / 6 % 4, r.u8()),
+            4 => Stim::Temp(r.u32()),
+            _ => Stim::Uio(k / 6 % 3, k & 0x80 != 0),
+        });
+    }
+    props::c05::SupCase { stack, limit: Some(limit), via_text: false, prog: raw_prog(&image), patches: vec![], fill, inp: [2, 2, 1, 0], max_instr: 300, stims }
+}
+
+fn decode_c11(r: &mut Rd) -> props::c11::StepCase {
+    use props::c11::Op;
+    let stack = r.u8() % 5;
+    let limit = r.u8() | 0x80;
+    let int_prelude = r.u8() & 1 == 1;
+    let image = decode_image(r);
+    let mut ops = vec![];
+    while !r.done() && ops.len() < 80 {
+        let k = r.u8();
+        ops.push(match k % 8 {
+            0 | 1 => Op::Edges(k / 8 % 12 + 1),
+            2 | 3 | 4 => Op::AsmStep,
+            5 => Op::KeyInt,
+            6 => Op::Continue,
+            _ => Op::Input(k / 8 % 4, r.u8()),
+        });
+    }
+    props::c11::StepCase { prog: raw_prog(&image), fill: props::c05::Fill::Nops, inp: [2, 2, 2, 2], stack, limit, int_prelude, ops }
+}
+
+/// first byte selects the property, the rest is decoded into its case type
 pub fn machine_findings(data: &[u8]) -> Vec<Finding> {
     if data.is_empty() {
         return vec![];
     }
-    let rest = &data[1..];
-    let (id, v): (&str, Verdict) = match data[0] % 8 {
-        0 | 1 => match case_from_bytes(&props::c13::script_strategy(60), rest) {
-            Some(c) => ("C13", props::c13::run_script(&c).0),
-            None => return vec![],
-        },
-        2 => match case_from_bytes(&props::c05::sup_strategy(), rest) {
-            Some(c) => ("C05", props::c05::check_sup(&c).0),
-            None => return vec![],
-        },
-        3 => match case_from_bytes(&props::c11::step_strategy(), rest) {
-            Some(c) => ("C11", props::c11::check_steps(&c).0),
-            None => return vec![],
-        },
-        4 => match case_from_bytes(&props::cpu::seq_strategy(40, 120), rest) {
-            Some(c) => ("C01", props::cpu::check_seq(&c, props::cpu::Which::Semantics).0),
-            None => return vec![],
-        },
-        5 => match case_from_bytes(&props::c07::case_strategy(), rest) {
-            Some(c) => ("C07", props::c07::check_case(&c, 300).0),
-            None => return vec![],
-        },
-        6 => match case_from_bytes(&props::cpu::single_strategy(), rest) {
-            Some(c) => ("C15", props::cpu::check_single(&c, props::cpu::Which::Cycles).0),
-            None => return vec![],
-        },
-        _ => match case_from_bytes(&props::cpu::single_strategy(), rest) {
-            Some(c) => ("C01", props::cpu::check_single(&c, props::cpu::Which::Semantics).0),
-            None => return vec![],
-        },
+    let mut r = Rd { d: data, p: 1 };
+    let (id, v): (&str, Verdict) = match data[0] % 4 {
+        0 | 1 => ("C13", props::c13::run_script(&decode_c13(&mut r)).0),
+        2 => ("C05", props::c05::check_sup(&decode_c05(&mut r)).0),
+        _ => ("C11", props::c11::check_steps(&decode_c11(&mut r)).0),
     };
     match v {
         Verdict::Fail(sig, detail) => {
